@@ -29,19 +29,22 @@ META = {
                 text="Theorem C05.euler_eq_states_plus_dt_rhs: for programs passing checkRhs and checkScheme on the same model whose store is the Euler expression, "
                      "euler[i] = states[i] + dt*rhs[i] exactly, for every input and interpretation; euler_dt_zero; alias table pinned from get_scheme. The real explicit_euler "
                      "is compared with the module's own rhs (<= 4 ulp), with the reference meaning, under every accepted name, dt in {0, tiny, large, negative}, inputs unmodified; "
-                     "every third model is followed in the same process by a sibling with the same names and other equations (state kept between calls). GenValid.genEuler_valid.",
+                     "every third model is followed in the same process by a sibling with the same names and other equations, every third by a refactored sibling with identical derivative lines "
+                     "(state kept between calls). GenValid.genEuler_valid; SchemeEndToEnd.genEuler_correct: slot i of the model generator's program is states[i] + dt*f, f the specification's derivative.",
                 note=TB),
     "C06": dict(technique="Lean 4 proof (guarded RL formula of the emitted store; guard always emitted) + translation validation + differential run",
                 text="Theorems eval_rl_store / rl_fallback / rl_exponential / rlStore_guarded: the emitted store evaluates to x + (|g|>delta ? f/g*(exp(g*dt)-1) : dt*f) in every "
                      "interpretation; pin rl_always_guarded (extracted: no generator consults the non-zero shortcut). The linearisation gotranx emits is compared by value with the "
                      "Lean symbolic derivative (w.r.t. the own state, everything else fixed); steps are compared with the formula at |g| around delta, several delta, dt. "
                      "GenValidRL.genGRL_valid: the model's generalized_rush_larsen generator passes checkScheme for every well-formed model without dt/_linearized name clashes "
-                     "(the linearisation reads only names its rate reads: DiffFv.sub_diff); re-evaluated by the driver on every loaded model.",
+                     "(the linearisation reads only names its rate reads: DiffFv.sub_diff); re-evaluated by the driver on every loaded model. SchemeEndToEnd.genGRL_correct / genGRL_formula: "
+                     "slot i of the generator's program is the Euler value when the symbolic linearisation is syntactically zero and rlFormula(delta, x, f, g, dt) otherwise, at every solution "
+                     "extended by the helper values (solution_withLin: such an extension always exists).",
                 note=TB + "Real-analysis consequences (diff is the derivative, exactness for affine rates, convergence to Euler) are in GotranxProofs/Analysis.lean when present; sympy's diff is assumption A4."),
     "C07": dict(technique="Lean 4 proof (syntactic program equalities on the Impl generators) + differential run",
                 text="Theorems hybrid_empty_eq_euler, hybrid_all_eq_grl, hybrid_foreign_names, hybrid_slotwise: program equalities for every model, sort order, option and subset. "
                      "On the real code: hybrid body text equals the Euler / GRL body text for empty / full subsets and ignores foreign names; slot by slot bit-equality with the module's own Euler and GRL. "
-                     "GenValidRL.genHybrid_valid: the model's hybrid generator passes checkScheme for every well-formed model and every stiff set.",
+                     "GenValidRL.genHybrid_valid: the model's hybrid generator passes checkScheme for every well-formed model and every stiff set; SchemeEndToEnd.genHybrid_correct: slot by slot value.",
                 note=TB + "The Impl generators mirror schemes.py; the tie is the body-text comparison and the validators."),
     "C12": dict(technique="Lean 4 proof (two validated programs for one model/layout agree; progress) + translation validation + differential run",
                 text="Theorem C12.unused_equiv_rhs: two rhs programs (with / without removal) that pass checkRhs for the same model and layout return equal values in every slot for every input; "
@@ -58,7 +61,7 @@ META.update({
                      "loader on the documented faults. 17 kinds of single well-formedness fault are injected into generated well-formed models at random sites; the real loader + "
                      "code generator must raise, and its accept/reject class must equal the model's.",
                 note=TB + "Kahn.staticOrder_correct / staticOrder_complete: the sorter model returns an order exactly for acyclic dependency graphs (a cycle is the only reason for its error). "
-                          "Missing/orphan derivatives and undefined symbols are rejected by the model's loader by construction (and compared with the implementation on every fault); a general theorem 'accepted => WellFormed' for the loader model is not yet stated (checkModelWF is evaluated per model)."),
+                          "Missing/orphan derivatives and undefined symbols are rejected by the model's loader by construction (and compared with the implementation on every fault); LoaderWF.coreLoad_wf / loadStringP_wf: every model the loader model accepts is ModelWF; SeqCheckComplete.seqCheck_iff: the duplicate test accepts exactly the texts in which any two atoms of one name are the same definition (both directions, no mention of order)."),
     "C09": dict(technique="Lean 4 proof (invariance under the iteration order of every dependency set; history invariant) + subprocess differential runs",
                 text="Theorems sort_iter_invariant, layout_iter_invariant, gen{Rhs,Monitor,Euler,GRL,Hybrid}_iter_invariant: for traversal orders that are permutations of the same "
                      "dependency sets the sorted order, the layout and every generated program are equal; pin deps_sorted (extracted from sort_assignments); history_invariant for "
@@ -67,8 +70,9 @@ META.update({
                 note=TB + "CPython's graphlib is modelled twice (Topo.lean: a literal mirror of its records and an edge-list formulation proved correct in Kahn.lean); the two are compared by the driver on every request and with the implementation's order on every model."),
     "C10": dict(technique="Lean 4 proof (name-sorted tuples are canonical; generators are functions of them) + differential permutation runs",
                 text="Theorems sortByName_canonical / model_of_perm (a duplicate-free list sorted by name is determined by its set), code_of_equal_models, plus C09's invariance "
-                     "theorems. Partial: the statement for the whole text-level loader is not proved; it is checked by running the model's loader and the real loader on block / entry / line "
-                     "permutations: == both ways, generated NumPy and C bytes, slot layout, component membership.",
+                     "theorems. LoaderPerm.model_perm_invariant + LoaderAccept.coreLoad_accepts_perm / loadItemsP_perm: for the loader model, permuting the atoms / the blocks of an accepted "
+                     "text gives an accepted text with the same model (every check of the loader is a property of the set of atoms; seqCheck_perm). The tie to the real loader is the "
+                     "differential run: the model's loader and the real loader on block / entry / line permutations: == both ways, generated NumPy and C bytes, slot layout, component membership.",
                 note=TB),
 })
 
